@@ -353,6 +353,23 @@ def run(R):
                 R.ok("C07.agg", "execute|agg-truncate", "the complete aggregate table is cut to `limit` rows", ar[0].loc())
         else:
             R.violation("C07.agg", "execute|agg-untruncated", "the batch aggregate result is not cut to the limit", [ef.loc()])
+    # an aggregate line that only updates the groups (batch mode) says nothing about the limit: it must not come back as `reached_limit`,
+    # which makes the executor stop reading (with LIMIT 0 after the first line: the groups of all later lines are lost)
+    ef2 = R.need_fn(ENG + "execute")
+    au = PR.calls_matching(ef2, r"ExecutionEngine::execute_aggregate_update$")
+    wkeys = set(w.key for w in writers)
+    for c in au:
+        tgt = ef2.blocks[c.bb]["term"].get("target")
+        after = ef2.reachable_from(tgt) if tgt is not None else set()
+        # (the other branches of the mode test are not `after` an update-only call unless control really merges)
+        flag = [x for x in ef2.calls if x.bb in after and
+                (short(x.name).endswith("ExecutionOutput::with_reached_limit") or any(k2 in wkeys for k2 in P.callee_keys(ef2, x)))]
+        if flag:
+            R.violation("C07.agg", "execute|update-only-limit", "after execute_aggregate_update (a batch line that only updates the groups) "
+                        "ExecutionEngine::execute goes on to %s: with LIMIT 0 (no row is ever counted) the line is reported as having reached "
+                        "the limit and the executor stops reading the input" % short(flag[0].name).split("::")[-1], [flag[0].loc()])
+        else:
+            R.ok("C07.agg", "execute|update-only", "an update-only aggregate line returns without touching the limit bookkeeping", c.loc())
     # who reads `.limit`
     for f in P.fns.values():
         if f.target != "lib" or f.derived:
